@@ -582,7 +582,7 @@ def check_approvals(job):
 
     leaders = set(job.settings.project_leaders)
 
-    is_unanimous = approvals - {username} == participants
+    is_unanimous = participants.issubset(approvals)
     approved_by_author |= job.pull_request.author in approvals
     current_leader_approvals += len(approvals.intersection(leaders))
     if (job.pull_request.author in leaders and
